@@ -57,6 +57,9 @@ pub fn run(a: &Args) {
         let fancy = ["tête", "ñandú-7", "日本語スレ", "😀😀", "a é", "ü"];
         for (i, t) in plan.scen.threads.iter_mut().enumerate() { if rng.chance(1, 2) { t.name = Some(fancy[i % fancy.len()].as_bytes().to_vec()); } }
         if rng.chance(2, 3) { plan.user_maps.push((0x2000_0000, 0x3000, format!("/opt/démo/lib{}.so.{}", rng.pick(&["über‑café", "plain", "日本"]), rng.below(9)), (0..rng.below(24)).map(|_| rng.next() as u8).collect())); }
+        // an application region whose tail lies in the unmapped page after the first anonymous mapping: the read
+        // returns a prefix, and the descriptor must describe what was stored
+        if case % 2 == 0 { plan.scen.lines.push(format!("appmem 0 {} {}", 3 * 4096 - *rng.pick(&[0x100u64, 1, 4095]), *rng.pick(&[0x200u64, 4096, 5000]))); plan.napp += 1; }
         // descriptors and a synthetic linker chain so that the handle and linker streams carry references
         for k in ["file", "pipe", "socket", "dir"] { if rng.chance(1, 2) { plan.scen.lines.push(format!("fd {k}")); } }
         let opts = format!("crash{} limit{} sanitize{} skip{} app{} threads{}", plan.crash, plan.limit.is_some() as u8, plan.sanitize as u8, plan.skip, plan.napp, plan.scen.threads.len());
